@@ -153,7 +153,6 @@ func (c *FuncCtx) zero(t types.Type) Term {
 		case u.Info()&types.IsString != 0:
 			return c.sc.strConst("")
 		case u.Info()&types.IsFloat != 0, u.Info()&types.IsComplex != 0:
-			c.sc.declFun("flt_zero", nil, SFloat)
 			return Term{"flt_zero", SFloat}
 		}
 		return Term{"nil_ref", SRef}
@@ -166,8 +165,7 @@ func (c *FuncCtx) zero(t types.Type) Term {
 	case *types.Slice:
 		return c.nilSlice()
 	case *types.Array:
-		s := c.sortOf(t)
-		return Term{fmt.Sprintf("((as const %s) %s)", s, c.zero(u.Elem()).S), s}
+		return c.zeroArray(u.Elem())
 	case *types.Struct:
 		si := c.structInfoOf(t)
 		args := make([]Term, u.NumFields())
@@ -270,4 +268,12 @@ func (c *FuncCtx) regMap(ks, vs Sort) (string, string) {
 	c.registerKey(dk, arraySort(SRef, arraySort(ks, SBool)), false)
 	c.registerKey(vk, arraySort(SRef, arraySort(ks, vs)), false)
 	return dk, vk
+}
+
+// zeroArray: the all-zero array of element type et (nil / "" are nullary constructors, so every
+// zero value is an SMT value term and `as const` is accepted by all back ends).
+func (c *FuncCtx) zeroArray(et types.Type) Term {
+	es := c.sortOf(et)
+	as := arraySort(c.sc.idxSort(), es)
+	return Term{fmt.Sprintf("((as const %s) %s)", as, c.zero(et).S), as}
 }
